@@ -914,11 +914,14 @@ func (x *Exec) applyContract(st *State, c *Contract, callee *types.Func, recv *V
 	pre := st.clone()
 	// 3. frame
 	if !c.Pure {
-		if len(c.Modifies) == 0 && len(c.Effects) == 0 && !c.Trusted {
+		if len(c.Modifies) == 0 && len(c.Effects) == 0 && len(c.InstMods) == 0 && !c.Trusted {
 			// no declared frame: the callee may write anything
 			x.havocHeap(st, "call "+q+" (no modifies clause)", nil)
 		} else {
 			x.havocModifies(st, c.Modifies)
+			for _, im := range c.InstMods {
+				x.havocInstance(st, pre, im)
+			}
 		}
 		if !c.Trusted {
 			// ghost state changed inside a verified callee (write hooks) must be
@@ -1014,6 +1017,47 @@ func (x *Exec) writeBackSlice(st *State, arg ast.Expr, post *Value) {
 		}
 	}
 	x.note("slice-argument-written-by-callee-not-tracked:" + x.eng.srcText(arg))
+}
+
+// instTarget resolves an instance-level modifies entry in state `in` (where the
+// callee's parameter names are bound): the object reference, its struct type
+// and the field type.
+func (x *Exec) instTarget(in *State, im *InstMod) (ref *Term, structT types.Type, ft types.Type, ok bool) {
+	x.spec++
+	x.noGuard++
+	bv := x.eval(in, im.Base)
+	x.noGuard--
+	x.spec--
+	if x.failed != nil || bv == nil || bv.T == nil {
+		return nil, nil, nil, false
+	}
+	p, isP := bv.T.Underlying().(*types.Pointer)
+	if !isP {
+		x.fail("modifies %s: base is not a pointer", im.Src)
+		return nil, nil, nil, false
+	}
+	ft = x.fieldType(p.Elem(), im.Field)
+	if ft == nil {
+		x.fail("modifies %s: no such field", im.Src)
+		return nil, nil, nil, false
+	}
+	return bv.scalar(), p.Elem(), ft, true
+}
+
+// havocInstance forgets one field of one object (instance-level frame).
+func (x *Exec) havocInstance(st, pre *State, im *InstMod) {
+	ref, structT, ft, ok := x.instTarget(pre, im)
+	if !ok {
+		return
+	}
+	sn := structName(structT)
+	for _, l := range x.leavesOf(ft) {
+		key := sn + "." + join(im.Field, l.path)
+		if x.isImmutableKey(key) {
+			continue
+		}
+		st.heap[key] = x.b.Store(x.heapArr(st, key, l.sort), ref, x.b.Fresh("hv."+key, l.sort))
+	}
 }
 
 func (x *Exec) havocModifies(st *State, mods []string) {
